@@ -35,6 +35,7 @@ import Ymq.Lemmas.CrtColumns
 import Ymq.Lemmas.NttRoots
 import Ymq.Lemmas.NttPipeline
 import Ymq.Lemmas.CrtBound
+import Ymq.Lemmas.NttConvolve
 import Ymq.Lemmas.PolyDft
 import Ymq.Lemmas.PolyZMod
 import Ymq.Lemmas.PolyMiddle
@@ -651,6 +652,55 @@ theorem crt_call_bound (n logsize : Nat) (m : Ymq.Crt.Mzp) (hm : Ymq.Crt.new n l
   rcases Ymq.Crt.crt_call_bound n logsize m hm size V hs hV with h | h
   · exact h
   · omega
+
+/-- **`MultiZmodP::from_mint`** (model `Ymq.Crt.fromMint`; the table `rpowers[j][i] = R^(i+1) mod p_j` of `new`
+is proved on the way, `rp_full`): for a reduced `MInt` holding `v < n` (`n` of at most 512 bits) no panic
+site is reached (`assert!(sz <= 8)`, the `debug_assert!` on the unused words, the `u128` sums, `mg_redc`),
+every residue is reduced and residue `j` is the Montgomery form of `v mod p_j`. -/
+theorem from_mint_spec (n logsize : Nat) (m : Ymq.Crt.Mzp) (hm : Ymq.Crt.new n logsize = some m) (hn : 0 < n)
+    (hbits : Ymq.Checked.bitlen n ≤ 512) (v : Nat) (hv : v < n) :
+    ∃ z, Ymq.Crt.fromMint m (Ymq.Limbs.ofNat 8 v) = some z ∧ Ymq.Crt.EltOk m z ∧
+      ∀ j, j < m.w → Ymq.Crt.mfe m z j = ((v : Nat) : ZMod (Ymq.Crt.P m j)) :=
+  Ymq.Crt.fromMint_spec n logsize m hm hn hbits v hv
+
+/-- **`pprods_modn[q] ≡ -q·P (mod n)`** for the table built by the model of `MultiZmodP::new`
+(`pprod_modn`, its zero special case, the `for _ in 2..w` loop with the conditional subtraction). -/
+theorem pprods_modn_spec (n logsize : Nat) (m : Ymq.Crt.Mzp) (hm : Ymq.Crt.new n logsize = some m)
+    (hn : 0 < n) (q : Nat) (hq : q < m.w) : (m.pprodsModn.getD q 0 + q * m.pprod) % n = 0 :=
+  Ymq.Crt.pprods_neg n logsize m hm hn q hq
+
+/-- **`convolve_modn_ntt` is the cyclic convolution modulo `n`, end to end at word level.** For every modulus
+`n > 0` of at most 512 bits (the code's `assert!(sz <= 8)`), every context built by the model of
+`MultiZmodP::new(zn, logsize)` with `logsize ≤ 31`, every `size = 2^K` with `1 ≤ K ≤ logsize`
+(`assert!(mzp.k >= logsize)`), operands `p1`, `p2` of at most `size` residues `< n` (the integers held by the
+`MInt`s, i.e. Montgomery forms; given to the model as 8-word vectors), every `reslen`, `offset` and
+`rinv`: the word-level model — root tables, `from_mint` of every coefficient written to its bit-reversed
+position, two forward `ntt_inplace`, `mul`, the swap loop, inverse `ntt_inplace`, then for every output
+`redc` = `_crt` (quotient estimate, column sums, carry assertion) + `zn.redc` — reaches no panic site and
+returns `res[t] = (Σ_(a+b ≡ offset+t (mod size)) p1[a]·p2[b])·rinv mod n` for `offset + t < size` and `0` beyond:
+with `rinv = R⁻¹ mod n` the Montgomery form of the schoolbook cyclic convolution coefficient, exactly as
+`kronecker_cyclic_fft` states for `convolve_modn`. `V < P/2` at the `_crt` calls is proved from the operand
+bounds (`crt_call_bound`), the CRT quotient is `crt_unique`, both `w = 1` and `w ≥ 2` are covered. -/
+theorem convolve_modn_ntt_spec (n logsize : Nat) (m : Ymq.Crt.Mzp) (hm : Ymq.Crt.new n logsize = some m)
+    (hn : 0 < n) (hbits : Ymq.Checked.bitlen n ≤ 512) (hL : logsize ≤ 31) (K : Nat) (h1 : 1 ≤ K)
+    (hk : K ≤ logsize) (p1 p2 : List Nat) (hp1 : ∀ v ∈ p1, v < n) (hp2 : ∀ v ∈ p2, v < n)
+    (l1 : p1.length ≤ 2 ^ K) (l2 : p2.length ≤ 2 ^ K) (rinv reslen offset : Nat) :
+    ∃ rts res, Ymq.Crt.rootsPacked m = some rts ∧
+      Ymq.Crt.convolveNtt m rts rinv (2 ^ K) (p1.map (Ymq.Limbs.ofNat 8)) (p2.map (Ymq.Limbs.ofNat 8))
+        reslen offset = some res ∧ res.length = reslen ∧
+      ∀ t, t < reslen → res.getD t 0 =
+        if offset + t < 2 ^ K then
+          cycCoef (2 ^ K) (fun a => p1.getD a 0) (fun a => p2.getD a 0) (offset + t) * rinv % n
+        else 0 := by
+  obtain ⟨rts, res, e1, e2, e3, e4⟩ := Ymq.Crt.convolveNtt_spec n logsize m hm hn hbits hL K h1 hk p1 p2 hp1 hp2
+    l1 l2 rinv reslen offset
+  refine ⟨rts, res, e1, e2, e3, fun t ht => ?_⟩
+  rw [e4 t ht]
+  unfold Ymq.Crt.cycNat cycCoef
+  rw [Ymq.Kronecker.sumTo_eq]
+
+/-- non-vacuity: `n = 1000003`, `logsize = 2`, size 4: `(1 + 2X + 3X²)(4 + 5X + 6X²) mod (X⁴ - 1)` -/
+example : (Ymq.Crt.new 1000003 2).isSome = true ∧ Ymq.Checked.bitlen 1000003 ≤ 512 := by decide +kernel
 
 end CrtSpecs
 
